@@ -147,6 +147,30 @@ def union_misaligned(sql):
     return False
 
 
+def window_defect_variant(c, r):
+    sub_sum = lambda s: re.sub(r"(?<=[-)] )sum(?= \()", "sum_null", s)
+    sub_fl = lambda s: re.sub(r"(?<=[-)] )last(?= \()", "last_implicit", re.sub(r"(?<=[-)] )first(?= \()", "first_implicit", s))
+    variants = [("window-sum-null-instead-of-zero", sub_sum(c.sexp)), ("window-first-last-ignore-frame", sub_fl(c.sexp)),
+                ("window-first-last-ignore-frame", sub_fl(sub_sum(c.sexp)))]
+    variants = [(n, s) for n, s in variants if s != c.sexp]
+    if not variants:
+        return None
+    outs = drv_batch([f"eval\t{c.db_sexp}\t{s}" for _, s in variants])
+    for (name, _), m in zip(variants, outs):
+        pm = relgen.parse_model_rows(m)
+        if not pm:
+            continue
+        _, mrows = pm
+        names = r.get("names") or []
+        if names != c.columns and sorted(names) == sorted(c.columns) and len(set(names)) == len(names):
+            perm = [c.columns.index(n) for n in names]
+            mrows = [[row[i] for i in perm] for row in mrows]
+        ok = (r["rows"] == mrows) if r.get("mode") == "seq" else (relgen.canon_rows(r["rows"]) == relgen.canon_rows(mrows))
+        if ok:
+            return name
+    return None
+
+
 def classify(c, r, target="sql.sqlite"):
     """-> finding id (string) or None"""
     sql = r.get("sql") or ""
@@ -185,6 +209,11 @@ def classify(c, r, target="sql.sqlite"):
                 return "orderby-column-out-of-scope"
             if col.startswith("_expr_"):
                 return "helper-column-out-of-scope"
+    if st == "rows-differ" and " OVER (" in sql and r.get("rows") is not None and "( window" in getattr(c, "sexp", ""):
+        # does the observed result match the reference semantics under the RECORDED defect semantics of windowed sum / first / last?
+        v = window_defect_variant(c, r)
+        if v:
+            return v
     if st in ("rows-differ", "sqlite-error") and "SELECT NULL FROM" in sql and re.search(r"\baggregate\b", prql):
         return "unused-aggregate-elided"
     if st == "column-count":
